@@ -338,9 +338,11 @@ def runValidators (a : CaseAcc) : List String :=
   [ "v5 consumed " ++ okf (returnsConsumedB ch),
     "v5 required " ++ okf (requiredIncludedB ch),
     "v5 shadow " ++ okf (checkShadowing ch),
-    s!"v5 unjustified {idsOrDash (allJustifiedB ch)}",
+    s!"v5 unjustified {idsOrDash (unjustifiedSplit ch).1}",
+    s!"v5 unjustified_f5 {idsOrDash (unjustifiedSplit ch).2}",
     s!"v5 mustconsume {idsOrDash (mustConsumeOKB ch)}",
-    s!"v5 loose {idsOrDash (looseOKB ch)}" ]
+    s!"v5 loose {idsOrDash (looseOKB ch)}",
+    s!"v5 loose_f5 {idsOrDash (looseF5B ch)}" ]
 
 /-- run all ops through Exec and Spec; returns output lines -/
 def runCase (a : CaseAcc) : List String :=
